@@ -725,6 +725,10 @@ HXPwrite(accrec_t *access_rec, int32 length, const void *data)
     if (length < 0)
         HGOTO_ERROR(DFE_RANGE, FAIL);
 
+    /* the end of the write must be a representable element position and external-file offset */
+    if (length > INT32_MAX - access_rec->posn || access_rec->posn + length > INT32_MAX - info->extern_offset)
+        HGOTO_ERROR(DFE_RANGE, FAIL);
+
     /* if the file is open but external directory is changed (by HXsetdir),
        then close the file first before making the new file path */
     if (!info->file_open || (info->file_open && extdir_changed)) {
